@@ -196,13 +196,18 @@ class Reader:
 
     def build(self) -> None:
         for n in self.live.nodes:
-            if isinstance(n, ast.Call) and isinstance(n.func, ast.Name) and n.func.id in self.classes and not n.keywords:
+            if isinstance(n, ast.Call) and isinstance(n.func, ast.Name) and n.func.id in self.classes:
                 if 'mro' in self.live.flags and n.func.id != self.live.flags['mro'][0] and n.func.id.startswith('DetailProp'):
                     raise TranslateError(f'{self.fn.name}: line {n.lineno}: {n.func.id}(...) is live for class {self.live.flags["mro"][0]}')
                 fields = self.classes[n.func.id]
                 if len(n.args) > len(fields):
                     raise TranslateError(f'{self.fn.name}: line {n.lineno}: {n.func.id}(...) has more arguments than fields')
-                for a, f in zip(n.args, fields):
+                for k in n.keywords:
+                    # attrs strips the leading underscore of a private attribute in __init__
+                    if k.arg is None or not any(k.arg == f or k.arg == f.lstrip('_') for f in fields):
+                        raise TranslateError(f'{self.fn.name}: line {n.lineno}: {n.func.id}(...) keyword `{k.arg}` is not a field')
+                by_kw = [(k.value, next(f for f in fields if k.arg == f or k.arg == f.lstrip('_'))) for k in n.keywords]
+                for a, f in list(zip(n.args, fields)) + by_kw:
                     if isinstance(a, ast.Call) and isinstance(a.func, ast.Name) and a.func.id in COMPONENTS and len(a.args) == 3:
                         for k, c in enumerate(a.args):
                             for v, r in names_with_roles(c):
